@@ -98,6 +98,25 @@ theorem tagsOK_tagRemove {ts : List Tag} {k : Key} (h : TagsOK ts) : TagsOK (tag
   unfold tagRemove
   exact List.Nodup.sublist (List.Sublist.map _ List.filter_sublist) h.1
 
+/-- a well-formed tag list produces every token once — so the set difference `diffTokens` of the model
+is what the multiset merge of `sortAndDiffTokens` computes on the real token lists -/
+theorem tokens_nodup {ts : List Tag} (h : TagsOK ts) : (ts.filterMap tokenForTag).Nodup := by
+  induction ts with
+  | nil => simp
+  | cons e r ih =>
+    have hn := h.1
+    simp only [List.map_cons, List.nodup_cons] at hn
+    have hr : TagsOK r := ⟨hn.2, fun tg htg => h.2 tg (List.mem_cons_of_mem _ htg)⟩
+    simp only [List.filterMap_cons]
+    cases ht : tokenForTag e with
+    | none => exact ih hr
+    | some t =>
+      simp only [List.nodup_cons]
+      refine ⟨fun hm => ?_, ih hr⟩
+      obtain ⟨tg, htg, htok⟩ := List.mem_filterMap.1 hm
+      have := token_key_inj htok ht (h.2 tg (List.mem_cons_of_mem _ htg)) (h.2 e List.mem_cons_self)
+      exact hn.1 (by rw [← this]; exact List.mem_map_of_mem (f := (·.1)) htg)
+
 /-- re-indexing one feature from the tokens it had to the tokens it has -/
 theorem reindex_self {ix : List (Token × List Id)} {id : Id} {before after : List Token}
     (H : ∀ t, id ∈ postings ix t ↔ t ∈ before) (t : Token) :
